@@ -58,7 +58,9 @@ def gen(seed: int, tier: str) -> dict[str, Any]:
                 # the device repeating that answer in front of its next one
                 sc["per_request"] = [rng.choice([None, None, {"ack": "wrong", "respond": "before_ack"}, {"ack": "none", "respond": "before_ack"},
                                                  {"respond": "prev+normal"}, {"respond": "prev+normal", "ack": "normal"},
-                                                 {"ack": "dup"}, {"respond": "wrong_type"}]) for _ in range(6)]
+                                                 {"ack": "dup"}, {"respond": "wrong_type"},
+                                                 # an answer that comes after its request has given up
+                                                 {"resp_lat": 6.5, "ack_lat": None}, {"resp_lat": 9.0, "ack_lat": None}]) for _ in range(6)]
         devs.append({"script": sc, "lat": rng.choice([0.005, 0.02, 0.2])})
     n_req = rng.choice([1, 2, 4, 18]) if rng.random() < 0.9 else 36
     ops = []
@@ -207,40 +209,76 @@ def run(plan: dict[str, Any]) -> dict[str, Any]:
                 R.violate("C43.expected-response", f"returned-{r['resp_type']}-for-{r['kind']}", "response of another type returned")
             if r["resp_src"] != DEV[r["d"]]:
                 R.violate("C43.expected-response", "response-from-other-device", f"{r['resp_src']:04x}")
-    # a returned response carries the expected number.  Exact reference (the transport layer's receive side): per connection the
-    # expected number starts at 0; while a request is pending - from the hand-off of its data frame to its return - the
-    # first data frame of that peer carrying the expected number is taken (whatever becomes of the request afterwards) and
-    # the expected number advances; every other data frame is dropped.  A request that returns a response returns that frame.
+    # a returned response carries the expected number.  Exact reference (the transport layer's receive side, KNX 03.03.04):
+    # per connection the expected number starts at 0; every data frame of that peer carrying the expected number counts - the
+    # layer acknowledges it and expects the next number from then on, whether or not a request is waiting for it; every other
+    # data frame is dropped.  The first counted frame delivered while a request is pending - from the hand-off of its data
+    # frame to its return - is that request's response (whatever becomes of the request afterwards); counted frames nobody
+    # waits for are discarded.  A request that returns a response returns that frame.
     def _is_data_handoff(e, dev_ia):
         if e[3] != "handoff":
             return False
         c = W.parse_cemi_ldata(bytes.fromhex(e[5]))
         return bool(c and not c["group"] and c["dst"] == dev_ia and c["tpdu"] and (c["tpdu"][0] & 0xC0) == 0x40)
 
+    def _is_connect_handoff(e, dev_ia):
+        if e[3] != "handoff":
+            return False
+        c = W.parse_cemi_ldata(bytes.fromhex(e[5]))
+        return bool(c and not c["group"] and c["dst"] == dev_ia and c["tpdu"] and c["tpdu"][0] == 0x80)
+
+    t_of = {e[0]: e[1] for e in ev}
     for di in sorted({r["d"] for r in results}):
+        n_conn = next((e[0] for e in ev if _is_connect_handoff(e, DEV[di])), None)
+        if n_conn is None:
+            continue
+        from_dev = [(n, tg) for (n, tg) in seen_in if tg.source_address.raw == DEV[di] and n > n_conn]
         expected_no = 0
-        frames = [(n, tg) for (n, tg) in seen_in if tg.source_address.raw == DEV[di]
-                  and type(tg.tpci).__name__ == "TDataConnected"]
-        odd = [n for (n, tg) in seen_in if tg.source_address.raw == DEV[di]
-               and type(tg.tpci).__name__ not in ("TDataConnected", "TAck", "TNak", "TDisconnect")]
+        counted: list[tuple[int, Any, int]] = []        # (event number, telegram, number) of the frames the reference accepts
+        for (n, tg) in from_dev:
+            if type(tg.tpci).__name__ == "TDataConnected" and tg.tpci.sequence_number == expected_no:
+                counted.append((n, tg, expected_no))
+                expected_no = (expected_no + 1) & 0xF
+        odd = [n for (n, tg) in from_dev
+               if type(tg.tpci).__name__ not in ("TDataConnected", "TAck", "TNak", "TDisconnect")]
+        closed = [n for (n, tg) in from_dev if type(tg.tpci).__name__ == "TDisconnect"]
         for r in [x for x in results if x["d"] == di and x["kind"] != "connect"]:
             if any(n < r["n_ret"] for n in odd):
                 # the connected peer sent a T_Connect / connection-less frame inside the connection: such a frame carries no
                 # sequence number and answers nothing (judged like any other frame since fix of P2PConnection.process)
                 R.probes["unnumbered_frame_of_connected_peer_inside_connection"] += 1
-            sent_n = next((e[0] for e in ev if r["n_call"] < e[0] < r["n_ret"] and _is_data_handoff(e, DEV[di])), None)
+            sent = next((e for e in ev if r["n_call"] < e[0] < r["n_ret"] and _is_data_handoff(e, DEV[di])), None)
+            sent_n = sent[0] if sent else None
             taken = None
             if sent_n is not None:
-                taken = next(((n, tg) for (n, tg) in frames if sent_n < n < r["n_ret"]
-                              and tg.tpci.sequence_number == expected_no), None)
+                taken = next(((n, tg, no) for (n, tg, no) in counted if sent_n < n < r["n_ret"]), None)
             if r["out"] == "ok":
-                if r["resp_seq"] != expected_no or taken is None or taken[1] is not r["resp"]:
+                if taken is None or r["resp_seq"] != taken[2] or taken[1] is not r["resp"]:
+                    exp_then = next((no for (n, tg, no) in counted if n > (sent_n or 0)), expected_no)
                     R.violate("C43.expected-response", "response-number-not-expected",
                               f"dev{di}: a request returned a frame numbered {r['resp_seq']}; the expected number then was "
-                              f"{expected_no} (reference takes {'frame #%d' % taken[0] if taken else 'no frame'})")
+                              f"{exp_then} (reference takes {'frame #%d' % taken[0] if taken else 'no frame'})")
                     break
-            if taken is not None:
-                expected_no = (expected_no + 1) & 0xF
+            elif r["out"] != "HANG" and taken is not None and not cfg["con_lost"]:
+                # the request failed although its response arrived: legitimate when anything else went wrong - a lost
+                # confirmation, a missing / late / wrong / negative acknowledgement, a response of the wrong type, a peer that closed
+                # the connection or sent unnumbered frames, an answer arriving at the very instant the request gave up
+                m = (W.parse_cemi_ldata(bytes.fromhex(sent[5]))["tpdu"][0] >> 2) & 0xF
+                acks = [(n, tg) for (n, tg) in from_dev if sent_n < n < r["n_ret"] and type(tg.tpci).__name__ in ("TAck", "TNak")]
+                want = "DeviceDescriptorResponse" if r["kind"] == "dd0" else "AuthorizeResponse"
+                n_tx = sum(1 for e in ev if r["n_call"] < e[0] < r["n_ret"] and _is_data_handoff(e, DEV[di]))
+                # (a repetition means an acknowledgement timeout ran out - possibly in the very instant the T_ACK came in)
+                clean = (n_tx == 1 and acks and all(type(tg.tpci).__name__ == "TAck" and tg.tpci.sequence_number == m for (n, tg) in acks)
+                         and t_of[acks[0][0]] < r["t_ret"] - 1e-6 and t_of[taken[0]] < r["t_ret"] - 1e-6
+                         and type(taken[1].payload).__name__ == want
+                         and not any(n < r["n_ret"] for n in odd) and not any(n < r["n_ret"] for n in closed))
+                if clean:
+                    R.violate("C43.expected-response", "valid-response-not-returned",
+                              f"dev{di}: request {r['kind']} numbered {m} was acknowledged and its response (expected type, "
+                              f"number {taken[2]} = the expected one, frame #{taken[0]}) arrived {r['t_ret'] - t_of[taken[0]]:.3f}s "
+                              f"before it failed with {r['out']}")
+                    break
+                R.probes["request_failed_although_response_arrived_legitimately"] += 1
     # each delivered frame satisfies at most one request
     objs = [id(r["resp"]) for r in results if r.get("out") == "ok"]
     # (object identity is per delivered frame: the same telegram object must not be returned twice)
